@@ -453,3 +453,22 @@ Proof.
       rewrite (value_own _ (okv_src _ _ Oi)) in G. exact G. }
     rewrite D. cbn. auto.
 Qed.
+
+(* ---------- raw re-delivery (no CheckChangeVersion filter) ---------- *)
+Lemma gtransfer_gput : forall res me phys clk i l, dominates (d_hlv l) (cv (d_hlv i)) = false ->
+  gtransfer res me phys clk (Some i) (Some l) = gput res me phys clk i l.
+Proof. intros. unfold gtransfer, gput. rewrite H. reflexivity. Qed.
+
+(* a revision the stored vector already knows, delivered raw: answered "already present" and nothing is stored --
+   UNLESS both are tombstones (that case skips the test: C06_Refuted.C06_raw_tombstone_redelivery_refuted) *)
+Theorem raw_redelivery_cancelled : forall res me phys clk i l, src (d_hlv l) <> 0 ->
+  dominates (d_hlv l) (cv (d_hlv i)) = true ->
+  (cv (d_hlv l) = cv (d_hlv i) \/ dominates (d_hlv i) (cv (d_hlv l)) = false) ->
+  unsendable i = false -> d_del i && d_del l = false ->
+  gput res me phys clk i l = (Some l, GCancelled, clk).
+Proof.
+  intros res me phys clk i l Hs D M US T. unfold gput. rewrite US, T.
+  assert (IC : is_in_conflict (d_hlv l) (d_hlv i) = AlreadyPresent).
+  { apply (proj1 (status_cases _ _)). destruct M as [E|F]; [left; now apply equal_cv_spec | right; auto]. }
+  now rewrite IC.
+Qed.
